@@ -99,7 +99,7 @@ CLAIMED = {
     engine="driver-ai"),
  "C01": dict(
     category="other",
-    text="Necessary conditions of completeness, each decided for all keys/messages/contexts/generator outputs of its class: A1 signer and verifier format M' identically and as FIPS prescribes in all four modes (C06 rules on both sides); A2 no early rejection: for verify / hash_verify x 3 / _internal_verify, every context-length class {0}, [1,254], {255} and every public-key provenance (deserialised, generated, derived) the abstract result over arbitrary signatures is not definitely false, and signing with ctx in [0,255] is definitely Ok for deserialised and generated keys (a definitely-rejected class would reject every honest signature of it); A3 the path condition at sigEncode bounds ||z|| by gamma1-beta-1 and the hint weight by omega with exactly the FIPS thresholds, the may-accept partition of verify_internal requires exactly ||z|| <= gamma1-beta-1, HintBitUnpack accepts all canonical encodings of weight up to and including omega, BitUnpack(gamma1-1,gamma1) is total; A4 both sides hash mu|w1Encode(.) of the same length and use lambda/4 bytes; A5 UseHint, Decompose/HighBits/LowBits, MakeHint equal their FIPS definitions on the whole domain (C15 engine) so the FIPS hint lemma applies. The ring identity behind w1' = w1 - hence acceptance itself - is not decided.",
+    text="Necessary conditions of completeness, each decided for all keys/messages/contexts/generator outputs of its class: A1 signer and verifier format M' identically and as FIPS prescribes in all four modes (C06 rules on both sides); A2 no early rejection: for verify / hash_verify x 3 / _internal_verify, every context-length class {0}, [1,254], {255} and every public-key provenance (deserialised, generated, derived) the abstract result over arbitrary signatures is not definitely false, and signing with ctx in [0,255] is definitely Ok for deserialised and generated keys (a definitely-rejected class would reject every honest signature of it); A3 the path condition at sigEncode bounds ||z|| by gamma1-beta-1 and the hint weight by omega with exactly the FIPS thresholds, the may-accept partition of verify_internal requires exactly ||z|| <= gamma1-beta-1, HintBitUnpack accepts all canonical encodings of weight up to and including omega, BitUnpack(gamma1-1,gamma1) is total; A4 both sides hash mu|w1Encode(.) of the same length and use lambda/4 bytes; A5 UseHint, Decompose/HighBits/LowBits, MakeHint equal their FIPS definitions on the whole domain (C15 engine) so the FIPS hint lemma applies; A6 key provenance: a derived public key carries the private key's rho and tr (copied, or re-hashed with SHAKE256 over all PK_LEN bytes) and expands A from that rho (C11 rules D1-D4), so the verifier's mu with a derived key is the signer's mu. The ring identity behind w1' = w1 - hence acceptance itself - is not decided.",
     design_ref="DESIGN.md §4 C01",
     note="Level 'other': a definitely-false class or a signer/verifier bound disagreement is a proof of a C01 violation; their absence is not a proof of completeness. Quick = ML-DSA-44, thorough = all sets.",
     technique="abstract interpretation over monomorphic MIR: definite-result input classes, absorb-list agreement of sibling entry points, path facts on tracked call results (emit / accept conditions), decoder classes; piecewise-affine kernel exactness",
@@ -127,7 +127,7 @@ CLAIMED = {
     engine="driver-ai"),
  "C02": dict(
     category="other",
-    text="Rejection side and decision structure. R1: every FIPS-rejected hint class embedded in an otherwise arbitrary signature is definitely rejected by verify (representatives through hash_verify and _internal_verify). R2: signatures with one coefficient field encoding |z| in [gamma1-beta, gamma1] (both signs, exactly the bound, first/last coefficient and polynomial) are definitely rejected. R3: the decision compares all lambda/4 bytes of c-tilde with the first lambda/4 bytes of H(mu || w1Encode(w1')), UseHint is applied to all 256k coefficients, SampleInBall absorbs the whole c-tilde. R4: no overflow/self-check obligation on any verify path for arbitrary (pk, sig) and all three key provenances. R5: contexts > 255 rejected. The acceptance side is not decided (needs hash values).",
+    text="Rejection side and decision structure. R1: every FIPS-rejected hint class embedded in an otherwise arbitrary signature is definitely rejected by verify (representatives through hash_verify and _internal_verify). R2: signatures with one coefficient field encoding |z| in [gamma1-beta, gamma1] (both signs, exactly the bound, first/last coefficient and polynomial) are definitely rejected. R3: the decision compares all lambda/4 bytes of c-tilde with the first lambda/4 bytes of H(mu || w1Encode(w1')), UseHint is applied to all 256k coefficients, SampleInBall absorbs the whole c-tilde. R4: no overflow/self-check obligation on any verify path for arbitrary (pk, sig) and all three key provenances. R5: contexts > 255 rejected. R6: UseHint (both gamma2, h = 0, 1), Decompose/HighBits/LowBits and mod+- equal their FIPS definitions on their whole domain (C15 engine), so w1' is the FIPS w1' for every (w'_approx, h). The acceptance side is not decided (needs hash values).",
     design_ref="DESIGN.md §4 C02",
     note="Only the reject direction and structural clauses; 'returns true iff FIPS returns true' is not established. Assumed obligations of rules/assume.json apply to R4.",
     technique="abstract interpretation on abstract signature classes through the verify entry points + hash/compare probes",
